@@ -9,6 +9,8 @@ CHECK = {
         "the reference server is exercised in-process through RunInReferenceMode on loopback, plain text, HTTP/1.1 and h2c, identity encoding; TLS and HTTP/3 are outside this check; gzip-compressed unary error bodies and end-stream messages are exercised over a scripted transport only (stages histories / sizes)",
         "histories: the verdict about a response is taken to be a function of that response alone (the property speaks about 'a well-formed body / message / block', not about what was examined before); histories are bounded to one (thorough: two) abnormal response(s) + the judged response + two neutral calls, in one process on one goroutine with GOMAXPROCS=1 and the collector off, which makes the hand-off of recycled (sync.Pool) objects between consecutive calls deterministic; state that survives only across goroutines / Ps, or only after a collection, is outside the bound",
         "sizes: thresholds are looked for at powers of two 2^10..2^20 (thorough 2^22), one byte (thorough two) either side, measured on the examined unit (error body, end-stream payload, trailer block, field set rendered as lines) and, for enveloped formats, also on the envelope; limits at other values or beyond 1 MiB (4 MiB) are outside the bound; the large detail is a StringValue (go-cmp walks a bytes field element by element, 0.6 s per 256 KiB)",
+        "encodings (round 4): the verdict about a compressed unary error body / end-stream message / trailer block is taken to be a function of its CONTENT: every encoding the codec's own specification allows (RFC 1952 multi-member gzip and optional header fields, RFC 8878 concatenated and skippable zstd frames, several deflate / brotli blocks, snappy framing with repeated stream identifier, uncompressed, padding and reserved skippable chunks) must draw the feedback of the plain content; legality of every variant is established by decoding it with the codec library itself (compress/gzip, compress/zlib, klauspost zstd, andybalholm brotli, golang/snappy: trusted), not with internal/compression; contents are 7 + 7 + 9 fixed documents of 2..~330 bytes, split into two pieces at every offset and into three at up to 28 representative offset pairs; preset dictionaries, contents above one block / window, and gRPC-Web 'text' (base64) bodies are outside the bound",
+        "spellings (round 4): legal Content-Type spellings are those of RFC 9110 section 8.3 (case-insensitive type/subtype, parameters, optional blanks around ';', quoted values) and the protocols' own codec suffixes; the spelling must not create feedback (a response draws what it draws under the canonical spelling, or nothing where the code leaves it unexamined); responses carrying HTTP trailers are crossed only with the spellings of the gRPC grammar ('application/grpc' ['+' codec]) because gRPC defines its content type literally and the examiner reports trailers on anything else by design; leading / trailing blanks of the whole value (removed by any HTTP parser) and several Content-Type fields are not enumerated",
         "arbitrary input is bounded: all byte strings of length <= 2, all strings of length <= 4 (quick) / 5 (thorough) over a 13-symbol JSON/trailer alphabet, plus typed grammars; longer arbitrary input is outside the bound (DESIGN.md §5)",
         "detail types are registered ones (the property's quantifier); unregistered types with a debug member are exercised for robustness only",
     ],
@@ -38,7 +40,17 @@ CHECK = {
                 "(7) sizes (round 3): well-formed unary error bodies (identity and gzip Content-Encoding), Connect end-stream messages (plain and gzip-compressed envelope), gRPC-Web trailer blocks, "
                 "gRPC-Web trailers-only headers, gRPC HTTP trailers and trailers-only headers measuring exactly 2^k-1, 2^k, 2^k+1 bytes (enveloped formats also 2^k-6..2^k-4) for k = 10..20 "
                 "(thorough: +-2 and k <= 22, also delivered in 1000-byte portions), bulk from a long message or from one large detail, rendered by spec encoders, connect-go's ErrorWriter and the "
-                "repository's trailer encoders (1122 cases quick), through the same complete pipeline: no feedback.",
+                "repository's trailer encoders (1122 cases quick), through the same complete pipeline: no feedback. "
+                "(8) encodings (round 4): 23 contents (well-formed and malformed, malformation at the start / in the middle / in the last bytes) of the three things the examiner inflates (unary error body with Content-Encoding, "
+                "Connect end-stream message flag 0x03, gRPC-Web trailer block flag 0x81) x 5 codecs x every legal way of encoding the same content: gzip at every level incl. stored and Huffman-only, with FNAME / FCOMMENT / FEXTRA / FHCRC / FTEXT / MTIME+OS, "
+                "several deflate blocks, TWO members split at every offset (empty first / last member included), three members, members with header fields; zstd levels, checksum on/off, streaming frames, several blocks, two frames at every offset, three frames, "
+                "skippable frames before / between / after, encoder padding; zlib levels and blocks at every offset; brotli qualities, windows and meta-blocks at every offset; snappy buffered / one chunk per write / uncompressed chunks / compressed + uncompressed / "
+                "two concatenated streams at every offset / padding and reserved skippable chunks; also 'negotiated but sent uncompressed' and byte-by-byte delivery (48047 cases quick, 74315 thorough), through the complete pipeline. "
+                "Oracle: exactly the feedback of the same content sent plainly (none for well-formed, the same message(s) for malformed content); every variant is first decoded by the codec library itself. "
+                "(9) spellings (round 4): 29 kinds of response (the 14 judged responses of (6) + unary errors identity / gzip / cut short / unknown code, 200 JSON success, HTML error page, gzip-compressed end-stream and trailer block, gRPC trailers-only and HTTP trailers, well-formed and malformed) "
+                "x 21 spellings of their Content-Type (parameters charset / boundary / two / empty, quoted value, blank before ';', upper-case parameter name; UPPER / Title / mIXED case; case + parameter; codec suffixes +json / +proto / +custom / none) "
+                "x delivery {whole, byte by byte} x for unary errors 17 non-200 statuses (1431 cases quick, 2770 thorough), through the complete pipeline (the capturing transport, the tracer and the examiner each decide on that header). "
+                "Oracle: the response draws the feedback it draws under the canonical spelling or none at all; a well-formed one never draws any.",
         "note": "Oracle independent of the examiners; well-formed = what the specs allow (a raw leading/trailing blank in grpc-message is allowed by the gRPC grammar). "
                 "The unexported server encoders are reached through a build-tag-guarded export shim that exists only in the overlay (harness/referenceclient/c13_srvexport.go).",
         "design_ref": "DESIGN.md §2.2, §4 C13, §5",
@@ -48,7 +60,7 @@ CHECK = {
             "name": "c13-enum", "pkg": RC,
             "harness": [H + "c13_test.go", H + "c13_common_test.go", H + "c13_wellformed_test.go",
                         H + "c13_server_test.go", H + "c13_malformed_test.go", H + "c13_robust_test.go",
-                        H + "c13_history_test.go"],
+                        H + "c13_history_test.go", H + "c13_encodings_test.go", H + "c13_spelling_test.go"],
             # overlay-only file in the server package: exported wrappers of grpcStatusTrailers / grpcWebStatusEndStream
             "extra_files": {"internal/app/referenceserver/zz_verif_c13_srvexport.go": "harness/referenceclient/c13_srvexport.go"},
             "test": "^TestVerifC13$",
